@@ -42,6 +42,21 @@ struct Val<trk::Tracked> {
     static long get(const trk::Tracked &x) { return x.magic == trk::Tracked::LIVE ? x.payload : -1000; }
 };
 
+// trivially copyable, but NOT trivially default-constructible: Array<Pod>(n) and resize(n) must run the default member initialisers
+struct Pod {
+    int v = 0;
+    int guard = 0x5A5A;
+};
+template <>
+struct Val<Pod> {
+    static Pod make(int v) {
+        Pod p;
+        p.v = v;
+        return p;
+    }
+    static long get(const Pod &x) { return x.guard == 0x5A5A ? x.v : -77; }
+};
+
 template <class A>
 std::string observe(A &a) {
     using T = typename A::value_type;
@@ -192,6 +207,8 @@ void run_exec(const Execution &ex) {
         run_typed<double>(ex);
     else if (ty == "str")
         run_typed<std::string>(ex);
+    else if (ty == "pod")
+        run_typed<Pod>(ex);
     else
         run_typed<trk::Tracked>(ex);
 }
